@@ -75,8 +75,34 @@ def make_scenarios(ctx, count, per):
             s.add("OPT sloppy=1")         # text getters that fill their whole window and report the string's length
         tuples = []
         worn = 0
+        small_changes = 0
         for _ in range(per):
             t = rand_tuple(rng, idx)
+            if tuples and tuples[-1] is not None and rng.random() < 0.3:
+                # the platform's attributes change a little between two Hellos: one attribute, in one byte, in its last two
+                # bytes, or by one bit - everything else stays as it was (an address renumbered, a lease renewed, a rate change)
+                t = dict(tuples[-1])
+                which = rng.choice(["ipv6", "ipv6", "ipv4", "mac", "bssid", "speed", "hostname"])
+                v = t.get(which)
+                if isinstance(v, (bytes, bytearray)) and len(v) >= 2:
+                    b = bytearray(v)
+                    how = rng.choice(["last-two", "last", "first", "one-bit", "middle"])
+                    if how == "last-two":
+                        b[-2] ^= rng.randint(1, 255); b[-1] ^= rng.randint(1, 255)
+                    elif how == "last":
+                        b[-1] ^= rng.randint(1, 255)
+                    elif how == "first":
+                        b[0] ^= (2 if which == "mac" else rng.randint(1, 255))
+                    elif how == "one-bit":
+                        b[rng.randrange(len(b))] ^= 1 << rng.randrange(8)
+                    else:
+                        b[len(b) // 2] ^= rng.randint(1, 255)
+                    t[which] = bytes(b)
+                elif which == "speed":
+                    t["speed"] = max(0, t["speed"] + rng.choice([-100, 100, 1000, 1 << 24]))
+                t["fail"] = 0
+                t["gfail"] = 0
+                small_changes += 1
             t["failrc"] = failrc
             idx += 1
             kw = H.iface_kw(t)
@@ -96,7 +122,7 @@ def make_scenarios(ctx, count, per):
                 worn += 1
             s.frame(0, W.discover(mapper, rng.getrandbits(16), rng.getrandbits(16), [], tos=rng.choice([0, 1])))
             tuples.append(t)
-        s.meta = dict(tuples=tuples, worn=worn)
+        s.meta = dict(tuples=tuples, worn=worn, small_changes=small_changes)
         scns.append(s)
     return scns
 
@@ -107,6 +133,7 @@ def be32(v):
 
 def monitor(scn, sobj, rep, sf, ck):
     tuples = sobj.meta["tuples"]
+    rep.count("single_attribute_small_changes_between_hellos", sobj.meta.get("small_changes", 0))
     for idx, inp in enumerate(scn.inputs):
         if idx >= len(tuples) or inp.out is None:
             break
@@ -203,5 +230,6 @@ def run(ctx):
     rep.need("tuples_with_failing_getters", c.get("tuples_with_failing_getters", 0), 500)
     rep.need("failed_getter_positive_code_judged", c.get("failed_getter_positive_code_judged", 0), 300)
     rep.need("both name conventions", min(c.get("conv:0", 0), c.get("conv:1", 0)), 1000)
+    rep.need("single_attribute_small_changes_between_hellos", c.get("single_attribute_small_changes_between_hellos", 0), 1000)
     rep.need("long_runs_of_frames_between_attribute_change_and_discover", c.get("long_runs_of_frames_between_attribute_change_and_discover", 0), 50)
     c04_linux.run(ctx)
